@@ -57,6 +57,7 @@ def run(ctx):
     p13(ctx, R)
     p14(ctx, R)
     p15(ctx, R)
+    p16(ctx, R)
     from .c03 import g9, t3p
     from .geval import with_g11
     with_g11(ctx, R, [g2, g4, g5, g6, g9])
@@ -150,6 +151,10 @@ def lexer_rules(ctx, R, rules=("L1", "L2", "L3", "L4")):
                           "change every rule's language)" % re.RegexFlag(extra), file=R.pmod.relpath, line=R.master_node.lineno)
         for name, pat in R.lrules:
             bad = rx.uses_unsupported(pat, R.master_flags)
+            if bad and set(bad) <= {"look-around", "possessive/atomic"}:
+                # these do not disturb the dispatch on the group name; the regex model of this tool (sa/rx.py) has no automaton for them:
+                # the language rules cannot be decided for this rule - no verdict, not a violation
+                raise AnalysisError("L3", "lexer rule %s uses %s, which the regex model does not cover: its language is not decided" % (name, bad))
             if bad:
                 ctx.violation("L3", "Parser.lrules", "construct:%s" % name, "lexer rule %s uses %s, which breaks the group-name dispatch" % (name, bad),
                               file=R.pmod.relpath, line=R.Parser.node.lineno)
@@ -1309,6 +1314,44 @@ def transition_witness(key):
     }.get(key, "an ill-formed token sequence is accepted")
 
 
+def p16(ctx, R):
+    """After a command is closed the parser climbs to the closest ancestor that still waits for something; `,` or `)` is expected next
+    exactly when THAT ancestor takes a test list.  The test that decides the expectation must therefore look at the command the climb
+    ends on: nothing may move the climbing variable after the test."""
+    ctx.rule("P16", "the `,`/`)` expectation after a closed test is decided on the ancestor the climb ends on (no step of the climb after the test)")
+    up = R.up
+    cfg = ctx.cfg(up)
+    calls = [c for c in walk_no_nested(up.node) if isinstance(c, ast.Call) and call_name(c) and call_name(c).lstrip("_") == R.set_expected.name.lstrip("_")
+             and any(const_value(ctx.program, up, a) in ("comma", "right_parenthesis") for a in c.args)]
+    if not calls:
+        raise AnalysisError("P16", "%s: the comma / right_parenthesis expectation is not set here" % up.qualname)
+    n = 0
+    for c in calls:
+        # the variable whose variable_args_nb guards the call
+        guards = []
+        for fc in cfg.facts():
+            e, pol = fact_atom(fc)
+            if pol is True and isinstance(e, ast.Attribute) and e.attr == "variable_args_nb" and all(
+                    cfg.guarded(nd, lambda x, fc=fc: x is fc) for nd in cfg.node_containing(c)):
+                guards.append((fc, norm(e.value)))
+        if not guards:
+            ctx.violation("P16", up, "expectation-unguarded", "`,`/`)` is expected without a test that the current ancestor takes a test list", node=c)
+            continue
+        for fc, var in guards:
+            n += 1
+            tests = [nd for nd in cfg.nodes if nd.kind == "test" and getattr(nd, "expr", None) is not None and contains(nd.expr, fact_atom(fc)[0])]
+            after = cfg.reach(tests, exc=False) if tests else set()
+            moved = [nd for nd in after if nd.kind == "stmt" and isinstance(nd.ast, ast.Assign) and any(norm(t) == var for t in nd.ast.targets)
+                     and not (len(nd.ast.targets) == 1 and norm(nd.ast.value) == var)]
+            if moved:
+                ctx.violation("P16", up, "climb-after-test:%s" % var, "%s is tested for variable_args_nb and then moved on (%s): the expectation is "
+                              "taken from an ancestor the climb does not stop at" % (var, norm(moved[0].ast)[:50]), node=moved[0].ast,
+                              witness="`if anyof(not allof(true) false) { stop; }` (no comma after the inner list) is accepted")
+            else:
+                ctx.holds("P16", "%s: %s.variable_args_nb is tested after the climb has ended" % (up.qualname, var))
+    ctx.need("P16", "expectation guards", n, 1)
+
+
 def p13(ctx, R):
     ctx.rule("P13", "a command / test is attached to its parent before it becomes the current command")
     f = R.command
@@ -1386,8 +1429,18 @@ def p14(ctx, R):
     else:
         ctx.violation("P14", f, "item-not-appended", "string tokens inside brackets are not each appended, verbatim, to the current list", node=f.node,
                       witness='`["a", "b"]` is accepted but an item is missing or altered in the tree')
+    acc = R.an("curstringlist")
+
+    def is_acc(e):
+        """the accumulator itself, or a local that was bound to it (`strings = self.<acc>`, taken before the attribute gets a new list)"""
+        if acc in norm(e):
+            return True
+        if isinstance(e, ast.Name):
+            ds = [a for a in walk_no_nested(f.node) if isinstance(a, ast.Assign) and any(isinstance(t, ast.Name) and t.id == e.id for t in a.targets)]
+            return bool(ds) and all(isinstance(a.value, ast.Attribute) and acc in norm(a.value) for a in ds)
+        return False
     hand = [c for c in walk_no_nested(f.node) if isinstance(c, ast.Call) and call_name(c) == "check_next_arg" and len(c.args) >= 2
-            and const_value(ctx.program, f, c.args[0]) == "stringlist" and R.an("curstringlist") in norm(c.args[1])]
+            and const_value(ctx.program, f, c.args[0]) == "stringlist" and is_acc(c.args[1])]
     if hand and all(cfg.guarded(n, tok("right_bracket")) for c in hand for n in cfg.node_containing(c)):
         ctx.holds("P14", "%s: the accumulated list is given to the command on `]`" % f.qualname)
     else:
@@ -1406,9 +1459,20 @@ def p14(ctx, R):
     for fc in cfgg.facts(lb):
         if cfgg.exit in cfgg.reach(fc, avoid=inodes, exc=False):
             uncond = False
+    # ... or the list is renewed where it is handed over (on every path through the `]` branch) and by the parser reset: then every
+    # `[` finds an empty list as well
+    renew = [st for st in walk_no_nested(f.node) if isinstance(st, ast.Assign) and any(acc in norm(t) and isinstance(t, ast.Attribute) for t in st.targets)
+             and isinstance(st.value, ast.List) and not st.value.elts]
+    rnodes = [n for st in renew for n in cfg.nodes_for(st)]
+    renewed = bool(renew) and all(cfg.exit not in cfg.reach(fc, avoid=rnodes, exc=False) for fc in cfg.facts(tok("right_bracket"))) and any(
+        isinstance(st, ast.Assign) and any(acc in norm(t) and isinstance(t, ast.Attribute) for t in st.targets) and isinstance(st.value, ast.List)
+        and not st.value.elts for st in walk_no_nested(R.reset.node))
     if inits and uncond and all(isinstance(st.value, ast.List) and not st.value.elts for st in inits) and all(
             cfgg.guarded(n, lb) for st in inits for n in cfgg.nodes_for(st)):
         ctx.holds("P14", "%s: `[` starts a fresh, empty list" % g.qualname)
+    elif not inits and renewed and bool(list(cfg.facts(tok("right_bracket")))):
+        ctx.holds("P14", "%s: the list is replaced by a fresh one whenever it is handed over on `]`, and by %s: every `[` finds it empty"
+                  % (f.qualname, R.reset.qualname))
     else:
         ctx.violation("P14", g, "list-not-fresh", "`[` does not start a fresh empty list", node=g.node,
                       witness="items of a previous list leak into the next one")
